@@ -189,6 +189,16 @@ func followerRun(c *xs.Ctx, r *xs.Result, rec *prodRecord, hist []ops.Op, acts [
 			}
 		case "G":
 			b := vnode.CloneBlock(rec.Gossip[a.H][a.I])
+			if !types.IsEmbeddedAddress(b.Address) {
+				// "no matter how the data reached them": the two plasma totals travel with a block but are covered neither
+				// by its hash nor by its signature; a receiving node computes them itself, so the copy a relay hands on
+				// may carry anything there. The gossiped copy of a user block claims a base cost one below the real one
+				// (still paid for) and a stale total.
+				if b.BasePlasma > 0 {
+					b.BasePlasma--
+				}
+				b.TotalPlasma++
+			}
 			before = f.FullDigest()
 			_, pan := f.AddAccountBlocks([]*nom.AccountBlock{b})
 			if pan != nil {
